@@ -1,47 +1,25 @@
-"""C17 - TimePeriod, TimeOffset and the mutation helpers: decomposition/recomposition constant pairing, sign handling,
-get/modify/set field pairing with the modulus of that field."""
+"""C17 - TimePeriod, TimeOffset and the mutation helpers, interpreted on their value families."""
 from .common import AnalysisError, Report
 from . import cxx
-from .gnf import SymExec, Poly, Canon, valuations, formula_str, poly_key_str, cmp_formula, formulas_equivalent, f_not
-from .ir import walk_stmts, walk_expr, all_exprs, show
-from .paths import path_of
 
 META = {
-    'explanation': 'E-GNF linear forms of TimePeriod(int32)/toSeconds/compareTo/negate, TimeOffset::forHourMinute/toHourMinute/'
-                   'toSeconds, increment15Minutes and the field-increment helpers: decomposition by %60,/60,%60,/60 pairs with '
-                   'the Horner recomposition ((h*60)+m)*60+s, the sign is set from seconds<0 with negation and applied back '
-                   '(sign tests compared as formulas, so `< 0` with swapped arms or an if is the same); the mutation helpers and '
-                   'negate() are interpreted (E-SEQ, typed) on real object trees of ZonedDateTime / TimePeriod through the real '
-                   'accessors: each helper steps its own field through that field\'s whole cycle and leaves every other field alone.',
-    'decided': 'constant and sign pairing of decomposition and recomposition; compareTo orders by signed seconds; negate writes only '
-               'the sign; hour/minute composition 60*h+m with /60, %60; 15-minute step wraps above +16:00 to -16:00; helpers use '
-               'moduli year 100, month 12 (+1), day 31 (+1), hour 24, minute 60 on the matching getter/setter pair, holding the '
-               'value in a local of the getter\'s own integer type',
-    'not_decided': 'the numeric sweeps (every value in range round-trips)',
+    'explanation': 'E-SEQ (typed): TimePeriod(int32) / toSeconds / compareTo / negate, TimeOffset::forHourMinute / toHourMinute / '
+                   'toSeconds / forMinutes, increment15Minutes and the field-increment helpers are interpreted through their real '
+                   'bodies (accessors and the ace_common helpers included) on the value families below and compared with the '
+                   'arithmetic the property states: |s| split into hour / minute / second with the sign apart and recomposed; '
+                   'compareTo by signed length, also for field states the setters can leave (minute 60 and more, negated zero); '
+                   'minutes = 60 * hour + minute with truncating /60, %60 back; a step of 15 minutes wrapping above +16:00 to '
+                   '-16:00; each increment helper on every value its field type can hold, stepping its own field through that '
+                   'field\'s cycle and leaving every other field alone.  How a function spells it is immaterial.',
+    'decided': 'on the families: TimePeriod(s).toSeconds() == s with minute, second < 60 and the sign apart (second counts around '
+               'every minute and hour boundary up to +-255:59:59); compareTo orders by signed seconds; negate writes only the '
+               'sign; forHourMinute / toHourMinute / toSeconds are 60*h+m, (/60, %60), 60*minutes on 90 (hour, minute) pairs; the '
+               '15-minute step on every multiple of 15 in -16:00..+16:00 and six odd values; the helpers use moduli year 100, '
+               'month 12 (+1), day 31 (+1), hour 24 (or the limit), minute 60 on the matching accessor pair for all 256 values of the field',
+    'not_decided': 'second counts and (hour, minute) pairs outside the families (the families are boundary samples, not the 1,843,199 '
+                   'second counts of the property)',
     'assumptions': ['clang 14 parser', 'ace_common::incrementMod/incrementModOffset as in the shim (d in [offset, m + offset))'],
 }
-
-
-def _P(k):
-    return Poly(dict(k))
-
-
-def _atom(p):
-    if len(p.t) == 1:
-        (k, v), = p.t.items()
-        if len(k) == 1 and v == 1:
-            return k[0]
-    return None
-
-
-def _sx(lib, inline=()):
-    """summariser with ?: split into paths; the named small functions (getters, forwarding factories) are summarised in
-    place so that a helper local, a delegation or a ?: instead of an if does not change what the rule sees"""
-    sx = SymExec(fold_global=lib.global_value)
-    sx.split_cond = True
-    if inline:
-        sx.inliner = lambda name, nargs: next((g for g in lib.fns(name) if name.endswith(tuple(inline)) and len(g.params) == nargs), None)
-    return sx
 
 
 def run(cfg):
@@ -86,6 +64,11 @@ def value_rules(R, lib, ob):
        {n for n, _t, _x in lib.fields('ace_time::TimePeriod')} == {'mHour', 'mMinute', 'mSecond', 'mSign'}, 'TimePeriod fields changed')
     samples = sorted(set(list(range(-130, 131)) + [k * 3600 + d for k in (-255, -100, -24, -1, 1, 24, 100, 255) for d in (-1, 0, 1, 59, 60, 61, 3599)]
                          + [k * 60 + d for k in (-61, -59, 59, 61) for d in (-1, 0, 1)]))
+    if R.cfg.tier == 'thorough':
+        # every count up to +-2h02m, every 61st count (coprime to 60 and 3600: every second-of-minute and minute-of-hour residue)
+        # up to the largest period, and its last two minutes
+        top = 255 * 3600 + 3599
+        samples = sorted(set(samples) | set(range(-7320, 7321)) | set(range(-top, top + 1, 61)) | set(range(top - 120, top + 1)) | set(range(-top, -top + 121)))
     samples = [s_ for s_ in samples if abs(s_) <= 255 * 3600 + 3599]
     bad_c = bad_t = None
     objs = {}
@@ -169,8 +152,11 @@ def value_rules(R, lib, ob):
     tmin = lib.fn('ace_time::TimeOffset::toMinutes')
     bad_f = bad_h = bad_s = None
     n = 0
-    for h in (-16, -12, -3, -1, 0, 1, 5, 14, 16):
-        for mi in (-59, -45, -30, -1, 0, 1, 15, 30, 45, 59):
+    hours, mins = (-16, -12, -3, -1, 0, 1, 5, 14, 16), (-59, -45, -30, -1, 0, 1, 15, 30, 45, 59)
+    if R.cfg.tier == 'thorough':
+        hours, mins = list(range(-24, 25)) + [-99, 99], range(-59, 60)
+    for h in hours:
+        for mi in mins:
             try:
                 o = call(fhm, [h, mi])
                 minutes = call(tmin, [], recv=o)
@@ -202,7 +188,7 @@ def value_rules(R, lib, ob):
     fmin = lib.fn('ace_time::TimeOffset::forMinutes')
     bad = None
     n = 0
-    for start in list(range(-960, 961, 15)) + [-959, -1, 1, 7, 946, 959]:
+    for start in (range(-960, 961) if R.cfg.tier == 'thorough' else list(range(-960, 961, 15)) + [-959, -1, 1, 7, 946, 959]):
         try:
             o = call(fmin, [start])
             call(inc, [o])
@@ -330,62 +316,6 @@ def mutation_helpers(R, lib, ob):
             if now != dict(vals, sign=-sg):
                 bad = 'a period %r with sign %d becomes %r' % (vals, sg, now)
     ob('R1', q, f.loc, bad is None, 'negate() does not write exactly sign := -sign: %s' % bad)
-
-
-def _const(e):
-    while e.k == 'cast':
-        e = e.a[2]
-    return e.a[0] if e.k == 'const' else None
-
-
-def helper_shape(lib, f, obj, field, helper, consts):
-    """getter of `field` on obj -> local; helper(local, consts...); setter of `field` on obj with local."""
-    stmts = f.body
-    local = None
-    got = called = sett = False
-    for s in stmts:
-        if s.k == 'decl' and s.a[2] is not None:
-            e = s.a[2]
-            while e.k == 'cast':
-                e = e.a[2]
-            if e.k == 'call' and e.a[0].split('::')[-1] == field and e.a[1] is not None and path_of(e.a[1]) == obj and not e.a[2]:
-                local = s.a[0]
-                got = True
-                from .cxx import int_type
-                getters = [g for g in lib.fns(e.a[0]) if not g.params]
-                lt, gt = int_type(s.a[1]), (int_type(getters[0].ret) if getters else None)
-                if lt is not None and gt is not None and lt != gt:
-                    return False, ('the value of %s.%s() (%sint%d_t) is held in a %sint%d_t local: stored values outside the common range are reinterpreted, '
-                                   'so the wrap test of %s never fires for them' % (obj, field, '' if gt[1] else 'u', gt[0], '' if lt[1] else 'u', lt[0], helper))
-        elif s.k == 'expr' and s.a[0].k == 'call':
-            e = s.a[0]
-            if e.a[0].endswith('::' + helper) and local is not None and e.a[2] and path_of(e.a[2][0]) == local:
-                vals = []
-                for a in e.a[2][1:]:
-                    c = _const(a)
-                    if c is None:
-                        b = a
-                        while b.k == 'cast':
-                            b = b.a[2]
-                        vals.append(('param', path_of(b)))
-                    else:
-                        vals.append(c)
-                if vals == consts:
-                    called = True
-                else:
-                    return False, '%s is called with %r, expected %r for field %s' % (helper, vals, consts, field)
-            elif e.a[0].split('::')[-1] == field and e.a[1] is not None and path_of(e.a[1]) == obj and len(e.a[2]) == 1 \
-                    and path_of(e.a[2][0]) == local:
-                sett = True
-            elif e.a[1] is not None and path_of(e.a[1]) == obj and e.a[2]:
-                return False, 'writes field %s instead of %s' % (e.a[0].split('::')[-1], field)
-    if not got:
-        return False, 'does not read %s.%s()' % (obj, field)
-    if not called:
-        return False, 'does not call %s on the value read' % helper
-    if not sett:
-        return False, 'does not write the result back with %s.%s(value)' % (obj, field)
-    return True, ''
 
 
 SELFTEST = [
